@@ -32,6 +32,7 @@ def classify_orderings(spec, out):
 
 class C01(Property):
     id = "C01"
+    anchors = ('finam.schedule:Composition._update_recursive', 'finam.schedule:_find_dependencies', 'finam.sdk.output:Output._interpolate', 'finam.adapters.time:check_time')
     technique = "runtime monitor on every update(): pull failures attributed to the running update + independent scheduling reference model evaluated on a snapshot at update entry"
     rule = (
         "random coupling graphs of 2-5 time components (DAG shapes, parallel links, 35% with one delay-resolved back edge), fixed or cycling "
